@@ -26,6 +26,7 @@ func reduceFunction(c *cli.Context) error {
 		rowCount       = c.Int("rows")
 		colCount       = c.Int("cols")
 	)
+	helpers.NonNegativeOrFail(c, "rows", "cols")
 
 	vt := helpers.BuildVTermFromArguments(c)
 	batcher := helpers.BuildBatcherFromArguments(c)
